@@ -265,8 +265,11 @@ def poly_rules(ctx, rule):
     if shape == ["repeat", "byte"] and len(parts[0][1]) == 1 and parts[0][1][0][0] == "byte":
         idiom = "loop"
         coef = parts[0][1][0][1]
-    elif shape == ["base", "byte"] and parts[0][1].op == "collected" and parts[0][1].args[0].op == "mapped":
-        m = parts[0][1].args[0]
+    elif shape in (["base", "byte"], ["part", "byte"]) and \
+            ((parts[0][1].op == "collected" and parts[0][1].args[0].op == "mapped") or
+             (parts[0][1].op == "mapped" and (parts[0][1].args[0].op == "range_iter" or parts[0][1].args[0].op == "agg"))):
+        # collected into the vector, or appended to it with extend(..)
+        m = parts[0][1].args[0] if parts[0][1].op == "collected" else parts[0][1]
         src = m.args[0]
         if src.op == "range_iter" or (src.op == "agg" and src.args[0].endswith("ops::Range")):
             idiom = "map"
